@@ -194,3 +194,104 @@ Definition exp_pose_write :=
     "self.body.write(self.header.version, buffer)" ].
 Lemma pose_write_tie : Gen_Codec.pose_write = exp_pose_write.
 Proof. reflexivity. Qed.
+
+Definition exp_pose_read :=
+  [ "if isinstance(buffer, bytes):
+    reader = BufferReader(buffer)
+elif any((kwargs.get(key, None) is not None for key in ('start_frame', 'end_frame', 'start_time', 'end_time'))):
+    reader = BytesIOReader(buffer)
+else:
+    reader = BufferReader(buffer.read())";
+    "reader.expect_to_read((PoseHeaderCache.end_offset or 10 * 1024) + 100)";
+    "header = PoseHeader.read(reader)";
+    "body = pose_body.read(header, reader, **kwargs)";
+    "return Pose(header, body)" ].
+Lemma pose_read_tie : Gen_Codec.pose_read = exp_pose_read.
+Proof. reflexivity. Qed.
+
+Definition exp_reader_init :=
+  [ "self.buffer: bytearray = buffer";
+    "self.total_bytes_read = len(buffer)";
+    "self.read_offset = 0";
+    "self.read_skipped = 0" ].
+Lemma reader_init_tie : Gen_Codec.reader_init = exp_reader_init.
+Proof. reflexivity. Qed.
+
+Definition exp_reader_expect_to_read :=
+  [ "pass" ].
+Lemma reader_expect_to_read_tie : Gen_Codec.reader_expect_to_read = exp_reader_expect_to_read.
+Proof. reflexivity. Qed.
+
+Definition exp_reader_bytes_left :=
+  [ "return len(self.buffer) - self.read_offset + self.read_skipped" ].
+Lemma reader_bytes_left_tie : Gen_Codec.reader_bytes_left = exp_reader_bytes_left.
+Proof. reflexivity. Qed.
+
+Definition exp_reader_unpack_numpy :=
+  [ "self.expect_to_read(s.size * int(np.prod(shape)))";
+    "arr = np.ndarray(shape, s.format, self.buffer, self.read_offset - self.read_skipped).copy()";
+    "self.advance(s, int(np.prod(shape)))";
+    "return arr" ].
+Lemma reader_unpack_numpy_tie : Gen_Codec.reader_unpack_numpy = exp_reader_unpack_numpy.
+Proof. reflexivity. Qed.
+
+Definition exp_reader_unpack :=
+  [ "self.expect_to_read(s.size)";
+    "unpack: tuple = s.unpack_from(self.buffer, self.read_offset - self.read_skipped)";
+    "self.advance(s)";
+    "if len(unpack) == 1:
+    return unpack[0]";
+    "return unpack" ].
+Lemma reader_unpack_tie : Gen_Codec.reader_unpack = exp_reader_unpack.
+Proof. reflexivity. Qed.
+
+Definition exp_reader_advance :=
+  [ "self.read_offset += s.size * times" ].
+Lemma reader_advance_tie : Gen_Codec.reader_advance = exp_reader_advance.
+Proof. reflexivity. Qed.
+
+Definition exp_reader_skip :=
+  [ "self.advance(s, times)" ].
+Lemma reader_skip_tie : Gen_Codec.reader_skip = exp_reader_skip.
+Proof. reflexivity. Qed.
+
+Definition exp_reader_unpack_str :=
+  [ "length: int = self.unpack(ConstStructs.ushort)";
+    "self.expect_to_read(length)";
+    "bytes_: bytes = self.unpack_f('%ds' % length)";
+    "return bytes_.decode('utf-8')" ].
+Lemma reader_unpack_str_tie : Gen_Codec.reader_unpack_str = exp_reader_unpack_str.
+Proof. reflexivity. Qed.
+
+Definition exp_stream_reader_init :=
+  [ "super().__init__(bytearray())";
+    "self.reader = reader" ].
+Lemma stream_reader_init_tie : Gen_Codec.stream_reader_init = exp_stream_reader_init.
+Proof. reflexivity. Qed.
+
+Definition exp_stream_reader_skip :=
+  [ "self.buffer = self.buffer[:self.read_offset - self.read_skipped]";
+    "self.read_skipped += s.size * times";
+    "super().skip(s, times)" ].
+Lemma stream_reader_skip_tie : Gen_Codec.stream_reader_skip = exp_stream_reader_skip.
+Proof. reflexivity. Qed.
+
+Definition exp_stream_reader_read_chunk :=
+  [ "self.reader.seek(self.read_skipped + len(self.buffer), 0)";
+    "self.buffer.extend(self.reader.read(chunk_size))";
+    "self.total_bytes_read += chunk_size";
+    "if not self.buffer:
+    raise EOFError('End of file reached')" ].
+Lemma stream_reader_read_chunk_tie : Gen_Codec.stream_reader_read_chunk = exp_stream_reader_read_chunk.
+Proof. reflexivity. Qed.
+
+Definition exp_stream_reader_expect_to_read :=
+  [ "if self.bytes_left() < n:
+    self.read_chunk(n - self.bytes_left())" ].
+Lemma stream_reader_expect_to_read_tie : Gen_Codec.stream_reader_expect_to_read = exp_stream_reader_expect_to_read.
+Proof. reflexivity. Qed.
+
+Definition exp_stream_reader_bases :=
+  [ "BufferReader" ].
+Lemma stream_reader_bases_tie : Gen_Codec.stream_reader_bases = exp_stream_reader_bases.
+Proof. reflexivity. Qed.
